@@ -20,8 +20,9 @@ Definition fresh (s : state) (args : list nat) (t : tag) : Prop :=
   (forall v, In v (t_net t) -> v = ver s) /\ (forall v, In v (t_tr t) -> v = tver s) /\
   (forall a, In a (t_arg t) -> In a args).
 
-Lemma Inv_init r c : Inv (init r c).
-Proof. unfold Inv, init; simpl. repeat split; intros; try discriminate; try congruence. Qed.
+Lemma Inv_init r c a : Inv (init r c a).
+Proof. unfold Inv, init; simpl. repeat split; intros; try discriminate; try congruence.
+  destruct (negb r && a); [congruence|discriminate]. Qed.
 
 (* sub-procedures preserve Inv, leave versions and settings alone, and return fresh values *)
 Definition good (s : state) (args : list nat) (r : state * tag) : Prop :=
